@@ -168,7 +168,31 @@ def r01_2(ctx, notify):
         b = f.built
         setter_calls = [(blk, t) for blk, t in b.calls() if (F.local_callee(f, t) is not None and F.local_callee(f, t).key in good)]
         if not setter_calls:
-            ctx.violated("R01.2", f, "stores-when-different", f.loc(), "`%s` never stores/notifies" % name)
+            # `cond.then(|| self.set(value))`: the store sits in a closure guarded by the receiver of bool::then
+            handled = False
+            for c in F.children.get(f.key, []):
+                if c.built and any(F.local_callee(c, t) is not None and F.local_callee(c, t).key in good for _, t in c.built.calls()):
+                    for blk, t in b.calls(r"bool>::then$"):
+                        if c.path in (t.get("garg_defs") or []):
+                            facts = conds.bool_facts(b.expr_of_op(t["args"][0]), True)
+                            pa = (lambda e: mentions_field(e, "value")) if kind == "eq" else (lambda e: contains(e, lambda x: x[0] == "call" and F_local(F, f, x) and x[3] and mentions_field(x[3][0], "value")))
+                            pb = (lambda e: contains(e, lambda x: x[0] == "param" and x[1] == 2)) if kind == "eq" else (lambda e: contains(e, lambda x: x[0] == "call" and F_local(F, f, x) and x[3] and contains(x[3][0], lambda y: y[0] == "param" and y[1] == 2)))
+                            ne = conds.cmp_holds(facts, "Ne", pa, pb)
+                            eq = conds.cmp_holds(facts, "Eq", pa, pb)
+                            where = b.line_at((blk, 10 ** 6))
+                            handled = True
+                            if ne:
+                                ctx.holds("R01.2", f, "stores-when-different", where, "the store+notify closure runs under `(a != b).then(..)`")
+                            elif eq:
+                                ctx.violated("R01.2", f, "stores-when-different", where, "`%s` stores and notifies when the values are *equal*" % name)
+                            else:
+                                ctx.undecided("R01.2", f, "stores-when-different", where, "guard of the then-closure not recognised")
+            if not handled:
+                inner = any(c.built and any(F.local_callee(c, t) is not None and F.local_callee(c, t).key in good for _, t in c.built.calls()) for c in F.children.get(f.key, []))
+                if inner:
+                    ctx.undecided("R01.2", f, "stores-when-different", f.loc(), "the store happens in a closure whose guard is not recognised")
+                else:
+                    ctx.violated("R01.2", f, "stores-when-different", f.loc(), "`%s` never stores/notifies" % name)
             continue
 
         def is_cur(e):
@@ -249,7 +273,10 @@ def r01_3(ctx):
     if e[0] == "call" and ecall_matches(e, r"^std::mem::replace$"):
         ok = mentions_field(e[3][0], "value") and contains(e[3][1], lambda x: x[0] == "param" and x[1] == 2)
     elif contains(e, lambda x: x[0] == "param" and x[1] == 2) and not mentions_field(e, "value"):
-        ok = False  # returns the new value
+        # accepted idiom: mem::swap(&mut self.value, &mut value); ...; value
+        swaps = [blk for blk, t in b.calls(r"^std::mem::swap$") if (mentions_field(b.expr_of_op(t["args"][0]), "value") and contains(b.expr_of_op(t["args"][1]), lambda x: x[0] == "param" and x[1] == 2))
+                 or (mentions_field(b.expr_of_op(t["args"][1]), "value") and contains(b.expr_of_op(t["args"][0]), lambda x: x[0] == "param" and x[1] == 2))]
+        ok = bool(swaps) and all(b.must_pass(0, rb, swaps) for rb in b.return_blocks())  # else: returns the new value
     ctx.verdict(ok, "R01.3", f, "returns-previous", f.loc(), "set returns mem::replace(&mut self.value, value)",
                 "set does not return the previous value (returns `%s`)" % fmt(e, 4))
     for name in ("set_if_not_eq", "set_if_hash_not_eq"):
